@@ -127,12 +127,12 @@ def gen(rng, knobs):
         if "ids" in shape:
             f["ids"] = [a["id"], b["id"]]
         if "window" in shape:
-            f["since"] = a["created_at"] - rng.choice([1, 5])
-            f["until"] = a["created_at"] + rng.choice([1, 5])
+            f["since"] = a["created_at"] - rng.choice([0, 1, 5])
+            f["until"] = a["created_at"] + rng.choice([0, 1, 5])
         if "since" in shape:
-            f["since"] = a["created_at"] - rng.choice([1, 5, 100])
+            f["since"] = a["created_at"] - rng.choice([0, 1, 5, 100])
         if "until" in shape:
-            f["until"] = a["created_at"] + rng.choice([1, 5, 100])
+            f["until"] = a["created_at"] + rng.choice([0, 1, 5, 100])
         probes.append(f)
     steps = []
     added = []
@@ -265,6 +265,18 @@ def run(case, sim):
                             viol.append({"cls": "condition-adds-results",
                                          "sig": "condition-adds-results|%s|%s" % (backend, qcommon.filter_shape(g)),
                                          "detail": {"f": f, "f_and": g, "extra": sorted(x[:8] for x in extra)}})
+                # (1b) ... seen from the other side: f is its own time window plus conditions, so its answer
+                # lies inside the answer to the bare window (served by the created_at index on LMDB)
+                tw = {k: f[k] for k in ("since", "until") if k in f}
+                if tw and len(tw) < len(f) and any(tw.values()):
+                    wide = await ask(pi, tw, "meta")
+                    if wide is not None:
+                        extra = base_ids - {e["id"] for e in wide}
+                        probes_c["pairs_bare_window"] += 1
+                        if extra:
+                            viol.append({"cls": "condition-adds-results",
+                                         "sig": "condition-adds-results|%s|%s" % (backend, qcommon.filter_shape(f)),
+                                         "detail": {"f": tw, "f_and": f, "extra": sorted(x[:8] for x in extra)}})
                 # (2) shrinking the window never adds results
                 g = dict(f)
                 g["since"] = max(g.get("since", 0), a["created_at"] - 3)
